@@ -6,7 +6,7 @@ TRUSTED = common.TRUSTED
 
 def run(ctx):
     # half of the worlds in the property's own mode (task-by-task, deadlines enforced), half mixed
-    built, worlds, results = common.common_prelude(ctx, ctx.pid, 80, 1200, profile="taskwise")
+    built, worlds, results = common.common_prelude(ctx, ctx.pid.split("_")[0] + "_ilp", 80, 1200, profile="taskwise")
     common.stream_csys(ctx, worlds, results)
     common.stream_plan(ctx, worlds, results)
     common.run_sat_monitor(ctx, worlds, results)
